@@ -16,7 +16,7 @@ from __future__ import annotations
 
 import ast
 
-from ..model import Program, call_name, is_self_attr, norm, expand_locals, single_assignment_locals
+from ..model import Program, call_name, execution_condition, is_self_attr, norm, expand_locals, single_assignment_locals
 from ..poly import Rat
 from ..report import AnalysisError
 from ..symexec import SymEnv
@@ -59,8 +59,29 @@ def rule_r1(rep, program: Program):
                 raise AnalysisError(f"{k.name}: super().sample_momentum not resolved")
         sp = g.params[1]
         rets = [n for n in ast.walk(g.node) if isinstance(n, ast.Return)]
-        if len(rets) != 1:
-            raise AnalysisError(f"{g.qualname}: expected a single return")
+        if not rets:
+            raise AnalysisError(f"{g.qualname}: no return")
+        # a fast path may return the bare draw only where the metric is known to be the identity itself
+        main = []
+        for rt in rets:
+            conds = execution_condition(g.node, rt, stop_at=(ast.FunctionDef,))
+            vv = expand_locals(rt.value, single_assignment_locals(g.node))
+            if not conds:
+                main.append(rt)
+                continue
+            ident = any(tr and isinstance(t, ast.Call) and norm(t.func) == "isinstance" and len(t.args) == 2 and norm(t.args[0]).endswith("metric") and norm(t.args[1]).split(".")[-1] == "IdentityMatrix" for t, tr in conds)
+            bare = _is_std_normal(vv, sp) is None
+            r.inst({"class": k.name, "conditional return": norm(vv)[:50], "under": [("" if tr else "not ") + norm(t) for t, tr in conds], "metric known to be the identity": ident})
+            if bare and not ident:
+                kk = f"{g.qualname}:untransformed-draw-under:{norm(conds[0][0])[:40]}"
+                if kk not in seen:
+                    seen.add(kk)
+                    r.violate(PROP, kk, f"under `{' and '.join(('' if tr else 'not ') + norm(t) for t, tr in conds)}` the standard normal draw is returned untransformed, but that condition does not make the metric the identity (an implicitly sized scaled identity s*I satisfies it too): the momentum covariance is then I instead of the metric the kinetic energy uses", node=rt, file=g.file)
+            elif not bare:
+                main.append(rt)
+        if len(main) != 1:
+            raise AnalysisError(f"{g.qualname}: expected a single general return")
+        rets = main
         v = expand_locals(rets[0].value, single_assignment_locals(g.node))
         dh = k.resolve("dh2_dmom")
         dret = [n for n in ast.walk(dh.node) if isinstance(n, ast.Return)][0].value
